@@ -722,14 +722,16 @@ def oracle_history(files, cmds, obs, exited_at, snaps, fault=None, final=None, n
         listed = {p for (_, _, p, _) in lst}
         # the unnamed buffer takes the path of the first write that names one
         wr = parse_write(ctext_full) if kind in ('w', 'wpart', 'wother', 'wname', 'q') else None
-        if prev_cur == '' and '' in text and '' not in listed and wr is not None and wr[1] == cur and cur not in text:
+        # (after wq <path> / x <path> that was refused because of ANOTHER buffer, that other buffer is the current one now)
+        if prev_cur == '' and '' in text and '' not in listed and wr is not None and wr[1] in listed and wr[1] not in text:
+            nm = wr[1]
             for dct in (text, state, dirty_before, saved_state_before):
                 if '' in dct:
-                    dct[cur] = dct.pop('')
+                    dct[nm] = dct.pop('')
             content.pop('', None)
             before_paths.discard('')
-            before_paths.add(cur)
-            prev_cur = cur
+            before_paths.add(nm)
+            prev_cur = nm
         # a full table: :e of a file that is not open recycles the last slot (the least recently used buffer).  More than LEN(bufs)
         # buffers are outside the property's quantifier; a modified buffer lost that way is DESIGN section 9 row 17 (C20): not judged
         prevl = obs[k - 1]['listing']
